@@ -69,6 +69,6 @@ def harnesses(tier):
     for x in hs:
         if 'profiles' in x['cfg']:
             x['cfg'] = dict(x['cfg'], profiles=dict(x['cfg']['profiles'],
-                            **{'n2-unsupplied': dict(sched.PLAIN, n=2, resources=['r', 'q'], unsupplied=True,
+                            **{'n2-unsupplied': dict(sched.PLAIN, n=2, resources=['r', 'q'], unsupplied=True, milestones=True,
                                                      scenarios=[(4, -1)])}))
     return hs
